@@ -8,15 +8,15 @@ open Rx Rx.Gen.Skip
 def absSkip (g : SkipObserver) : St1 := .skip g.count g.hits
 
 theorem tie_Skip_next (g : SkipObserver) (v : Val) :
-    (SkipObserver.next g v).map (fun r => (absSkip r.1, r.2)) = some (St1.onNext (absSkip g) v) := by
+    (SkipObserver.next g v).map (fun r => (absSkip r.1, r.2)) = some (Rs.lift (St1.onNext (absSkip g) v)) := by
   rcases g with ⟨⟩ <;> rs_tie [SkipObserver.next, absSkip, St1.onNext]
 
 theorem tie_Skip_error (g : SkipObserver) (e : Err) :
-    (SkipObserver.error g e).map (fun r => r.2) = some (St1.onError' (absSkip g) e).2 := by
+    (SkipObserver.error g e).map (fun r => r.2) = some ((St1.onError' (absSkip g) e).2.map Rs.Ev.n) := by
   rcases g with ⟨⟩ <;> rs_tie [SkipObserver.error, absSkip, St1.onError']
 
 theorem tie_Skip_complete (g : SkipObserver) :
-    (SkipObserver.complete g).map (fun r => r.2) = some (St1.onComplete' (absSkip g)).2 := by
+    (SkipObserver.complete g).map (fun r => r.2) = some ((St1.onComplete' (absSkip g)).2.map Rs.Ev.n) := by
   rcases g with ⟨⟩ <;> rs_tie [SkipObserver.complete, absSkip, St1.onComplete']
 
 
